@@ -145,15 +145,8 @@ fn format_variant(
                 if field_attr.skip {
                     quote!(format!("{{ \"{}\": \"{}\" }}", #tag, #ts_name))
                 } else {
-                    let ty = match field_attr.type_override {
-                        Some(type_override) => quote!(#type_override),
-                        None => {
-                            let ty = field_attr.type_as(&field.ty);
-                            quote!(<#ty as #crate_rename::TS>::name())
-                        }
-                    };
                     quote!(
-                        format!("{{ \"{}\": \"{}\", \"{}\": {} }}", #tag, #ts_name, #content, #ty)
+                        format!("{{ \"{}\": \"{}\", \"{}\": {} }}", #tag, #ts_name, #content, #parsed_ty)
                     )
                 }
             }
@@ -176,15 +169,7 @@ fn format_variant(
                     if field_attr.skip {
                         quote!(format!("{{ \"{}\": \"{}\" }}", #tag, #ts_name))
                     } else {
-                        let ty = match field_attr.type_override {
-                            Some(type_override) => quote! { #type_override },
-                            None => {
-                                let ty = field_attr.type_as(&field.ty);
-                                quote!(<#ty as #crate_rename::TS>::name())
-                            }
-                        };
-
-                        quote!(format!("{{ \"{}\": \"{}\" }} & {}", #tag, #ts_name, #ty))
+                        quote!(format!("{{ \"{}\": \"{}\" }} & {}", #tag, #ts_name, #parsed_ty))
                     }
                 }
                 Fields::Unit => quote!(format!("{{ \"{}\": \"{}\" }}", #tag, #ts_name)),
